@@ -102,6 +102,16 @@ def handle (op : String) (args : List String) : Option String :=
           let outs ← banditOps (Bandit.Agent.init n alpha eps q0) [] ops
           pure (" ; ".intercalate outs)
       | _ => none
+  | "bandit.repeat" => do
+      -- n alpha eps q0 | action count reward reward2 : `count` lessons (action, reward) and then one lesson (action, reward2) - final estimates and counts
+      let r ← run (do
+        let n ← nat; let alpha ← flt; let eps ← flt; let q0 ← flt
+        let a ← nat; let cnt ← nat; let r1 ← flt; let r2 ← flt
+        pure (n, alpha, eps, q0, a, cnt, r1, r2)) args
+      let (n, alpha, eps, q0, a, cnt, r1, r2) := r
+      let ag := (List.range cnt).foldl (fun ag _ => Bandit.learn Float.ofNat ag a r1) (Bandit.Agent.init n alpha eps q0)
+      let ag' := Bandit.learn Float.ofNat ag a r2
+      pure (fl ag.q ++ " / " ++ joinSp (ag.counts.map toString) ++ " ; " ++ fl ag'.q ++ " / " ++ joinSp (ag'.counts.map toString))
   | "bandit.rewards" => do
       -- boot loss, then the minimum loss of every agent-chosen batch: the rewards of the run (scheduler best -> environment reward)
       let (boot, losses) ← run (do let b ← flt; let ls ← list flt; pure (b, ls)) args
